@@ -12,6 +12,21 @@ TRUST = ('Trusted base: rustc nightly THIR/MIR for this source (same cfgs as the
          'the evidence file.')
 
 CHECKS = {
+    'C01': {
+        'technique': 'send-site census with receiver/source/payload provenance terms, guard entailment (sender skipped, prefix bit matches rank set), pairwise exclusivity of fan-outs, table agreement',
+        'level': ('Decides the fan-out shape of PRIVMSG/NOTICE for every input: who can receive (member map / matching rank '
+                  'set / addressed nick only), sender skipped, set-typed target loop, at most one copy per receiver per '
+                  'target (violated on the pinned tree: known finding), attribution and payload provenance, single '
+                  'producer/consumer discipline of user queues, prefix/bit/set/flag table agreement.'),
+        'note': TRUST + ' Membership truth of Channel.users is C04\'s structural result; delivery order and sockets are not decided.',
+    },
+    'C10': {
+        'technique': 'path-condition extraction + truth-table equivalence for the delivery condition; guard entailment for every reply (!notice); emission coverage per refusal stage',
+        'level': ('Decides that a channel message is fanned out iff ((!n && !s) || member) && !banned && (!m || voice+), that '
+                  'every sender-directed reply of the handler is unreachable for NOTICE, that a refused PRIVMSG reaches exactly '
+                  'one 404 (403/401 for unknown targets) and that 301 carries the recipient\'s away text.'),
+        'note': TRUST + ' Not decided: client auto-replies; parse-level errors for malformed NOTICE.',
+    },
     'C03': {
         'technique': 'guard-entailment over the dispatch (enum-aware truth table), assignment census of `authenticated`, value-implies-condition check, must-reach checks on the failure path',
         'level': ('Decides structurally that only the six listed commands reach a handler on an unauthenticated '
